@@ -39,7 +39,7 @@ LEVEL_TEXT = ('Alias maps are enumerated exhaustively up to 3 entries and sample
 LEVEL_NOTE = 'Trusted: my alias resolution (follow the chain). Not covered: aliases that shadow other variables, cyclic maps.'
 
 VARS = ['A', 'B', 'C', 'D']
-POOL = ['a1', 'a2', 'a3', 'a4', 'a5', 'GDP']
+POOL = ['a1', '_a2', 'a3', 'a4', 'a5', 'GDP', '_g']
 
 
 class Plain(fsic.BaseModel):
